@@ -6,3 +6,14 @@
 #![allow(missing_docs, unreachable_pub, dead_code, missing_debug_implementations)]
 
 pub use iroh_base::verif_hooks::{event, events_enabled, pause};
+
+pub mod tls;
+pub mod relay_recv;
+pub mod addr_maps;
+pub mod transports;
+pub mod remote_map;
+pub mod path_state;
+pub mod path_select;
+pub mod net_report;
+pub mod home_relay;
+pub mod address_lookup;
